@@ -20,6 +20,7 @@ EXPLANATION = (
     "set is_released, clear is_established, fire EVT_RELEASED and kill(). (5) negotiate_release "
     "answers a colliding request on both roles. Decides this for every arrival point because "
     "the indication can only leave the queue through the enumerated sites."
+    ' Second session: borrowed rules - ready-probe (C03: the release request sitting in a TLS buffer is seen on every SSLSocket) and provider-survives (C05 artim restricted to the release states Sta7-Sta12).'
 )
 
 # (module, qualified function) -> why it may dequeue from to_user_queue
